@@ -145,16 +145,21 @@ def C20(tier):
 
 
 def C11(tier):
-    src = 'harness/C11_destructors.c'
-    jobs = []
-    # the two keys range over all 1024 indices; the query is case-split on the root-level branch of each key (16 sub-queries)
-    for r0 in range(4):
-        for r1 in range(4):
-            jobs.append(ajob('dtor.k2.r%d%d' % (r0, r1), src, ['-DNK=2', '-DNPOOL=9', '-DLEAK=1', '-DR0=%d' % r0, '-DR1=%d' % r1], unwind=18, timeout=2400, mem_gb=6,
-                             bounds=dict(keys='2 symbolic keys with (k0>>8, k1>>8) = (%d,%d); union over the 16 sub-queries = all pairs of the 1024 indices; destructor present/absent and value NULL/non-NULL symbolic; all heap nodes released' % (r0, r1))))
+    src = 'harness/C11_destructors.c'; wsrc = 'harness/C11_walk.c'
+    inner = [[r's \+= myth_tls_call_destructors_rec\(c, depth \+ 1,', 's += stub_cd_rec(c, depth + 1,'], [r'myth_tls_tree_destroy_rec\(t, c, depth \+ 1,', 'stub_td_rec(t, c, depth + 1,']]
+    top = [[r'return myth_tls_call_destructors_rec\(t->root,', 'return stub_cd_rec(t->root,'], [r'return myth_tls_tree_destroy_rec\(t, t->root,', 'return stub_td_rec(t, t->root,']]
+    names = ['leaf_step', 'internal_step_destructors', 'internal_step_teardown', 'fini_top', 'leaf_step_teardown']
+    jobs = [ajob('walk.%s' % names[i], wsrc, ['-DSCEN=%d' % i, '-DVERIF_LOCAL_NODES=1'], unwind=18, timeout=1500, cfg=dict(text_patches=(inner if i in (1, 2) else top if i == 3 else [])),
+                 bounds=dict(step='one level of the recursive walk from an arbitrary node: symbolic depth, key base, child pattern / leaf contents and destructor table; the recursive self-call is redirected to a recording stub by a text patch on the preprocessed copy (inductive step)'))
+            for i in range(5)]
     if tier == 'thorough':
-        jobs += [ajob('dtor.k3.r012', src, ['-DNK=3', '-DNPOOL=13', '-DR0=0', '-DR1=1', '-DKLO=1024'], unwind=18, timeout=7200, mem_gb=24, bounds=dict(keys='3 symbolic keys, k0 in [0,256), k1 in [256,512), k2 anywhere'))]
-    return dict(jobs=jobs, assumptions=A_ASSUME + ['tree nodes come from a typed static pool standing for real_malloc; the embedded pre-allocation pool is put into its valid state "exhausted"',
+        # end-to-end: two symbolic keys over all 1024 indices, case-split on the root-level branch of each key (16 sub-queries)
+        for r0 in range(4):
+            for r1 in range(4):
+                jobs.append(ajob('dtor.k2.r%d%d' % (r0, r1), src, ['-DNK=2', '-DNPOOL=9', '-DLEAK=1', '-DR0=%d' % r0, '-DR1=%d' % r1], unwind=18, timeout=14000, mem_gb=6,
+                                 bounds=dict(keys='2 symbolic keys with (k0>>8, k1>>8) = (%d,%d); union over the 16 sub-queries = all pairs of the 1024 indices; all heap nodes released' % (r0, r1))))
+    return dict(jobs=jobs, assumptions=A_ASSUME + ['compositional argument: leaf step + internal step (recursive call replaced by a recording stub) + top call give the property for every subset of keys by induction on the tree depth; that set() files key k under the digits of k is C10 (tree harness)',
+                                                 'tree nodes come from a typed static pool standing for real_malloc; the embedded pre-allocation pool is put into its valid state "exhausted"',
                                                  'mechanical type patches on the preprocessed copy: entries[1] struct hack gets its real extent; the anonymous union {children, entries} becomes a struct (the code never puns between the two views)',
                                                  'a destructor call with a NULL value is not counted as a violation (the statement does not forbid it)'],
                 functions=['myth_tls_tree_set', 'myth_tls_tree_fini', 'myth_tls_call_destructors', 'myth_tls_call_destructors_rec', 'myth_tls_tree_destroy', 'myth_tls_tree_destroy_rec', 'myth_tls_tree_node_free'])
@@ -181,13 +186,19 @@ def C15(tier):
 
 
 def C17(tier):
-    N = 4 if tier == 'quick' else 5
-    jobs = [ajob('cjm.n%d' % N, 'harness/C17_cjm.c', ['-DNMAX=%d' % N], unwind=2 * N + 5, timeout=3000, mem_gb=16,
+    N = 3 if tier == 'quick' else 4
+    jobs = [ajob('cjm.n%d' % N, 'harness/C17_cjm.c', ['-DNMAX=%d' % N], unwind=2 * N + 5, timeout=6000, mem_gb=16,
                  replace_calls=['myth_create_ex_body:stub_create', 'myth_join_body:stub_join'],
                  bounds=dict(n='symbolic in [0,%d]' % N, strides='arg/result/id/func stride symbolic in {8,16}, attr stride {1,2} x sizeof(attr); ids/results/attrs NULL or not; many and various variants'))]
-    return dict(jobs=jobs, assumptions=A_ASSUME + ['myth_create_ex_body is replaced by "run the child to completion now", myth_join_body by a no-op that delivers the recorded result (the concurrent create/join protocol is C01)'],
-                functions=['myth_create_join_various_ex_body', 'myth_create_join_many_ex_body', 'myth_create_join_various_ex_aux'])
-
+    PLAIN = 'function(sroa,early-cse,simplifycfg,lowerswitch),globaldce'
+    names = ['parallel_for', 'parallel_for_step', 'task_group']
+    for i in range(3):
+        jobs.append(Job('mtbb.%s' % names[i], 'B', src='harness/C17_mtbb.cc', lang='c++', defs=['-DSCEN=%d' % i], cbmc=['--unwind', '14'], timeout=3000, mem_gb=12,
+                        cfg=dict(threads=[], plain=['verif_main'], opt_pipe=PLAIN, opts={}, havoc_ok=['__cxa_pure_virtual']),
+                        bounds=dict(indices='first,last symbolic in [-2,6], range length <= 5-6, step in [1,3]; task_group: 0..10 run() calls (inline capacity 8)', unwind=14)))
+    return dict(jobs=jobs, assumptions=A_ASSUME + ['myth_create_ex_body / myth_create is replaced by "run the child to completion now", myth_join by a no-op (the concurrent create/join protocol is C01)',
+                                                 'C++ units verified: src/mtbb/task_group.h and src/mtbb/parallel_for.h as instantiated by harness/C17_mtbb.cc (clang++ -std=c++11 -fno-exceptions IR -> irseq plain mode -> cbmc); operator new/delete = malloc/free'],
+                functions=['myth_create_join_various_ex_body', 'myth_create_join_many_ex_body', 'myth_create_join_various_ex_aux', 'mtbb::parallel_for (2 index forms)', 'mtbb::parallel_for_aux', 'mtbb::task_group_no_prof::run/run_task/wait', 'mtbb::task_list', 'mtbb::task_memory_allocator'])
 
 def C12(tier):
     names = ['custom_size_cycle', 'two_live_custom', 'default_size', 'descriptors']
@@ -260,7 +271,7 @@ def _asmsmt(job, wd, res):
 def C03(tier):
     jobs = [Job('ctxswitch.asm', 'C', src='harness/C03_probe.c', pyfunc=_asmsmt, timeout=2400, cfg=dict(nproc=8, no_native=True),
                 bounds=dict(templates='2 suspending forms x 4 resuming forms, all register and memory contents symbolic (64-bit bit-vectors, memory = array)', arch='x86-64 SysV, MYTH_INLINE_CONTEXT')),
-            ajob('ctxswitch.makectx', 'harness/C03_makectx.c', [], unwind=4, timeout=900, bounds=dict(stack_top='every offset in a 128 KB stack block'))]
+            ajob('ctxswitch.makectx', 'harness/C03_makectx.c', [], unwind=4, timeout=900, bounds=dict(stack_top='every offset in the top 512 bytes of a stack block'))]
     return dict(jobs=jobs, level='other',
                 explanation='SMT (z3, bit-vectors + arrays, quantifier-free) proof obligations over a micro-semantics of the ~10 instruction forms occurring in the four real inline-asm context-switch templates, for ALL register/stack contents; plus cbmc on myth_make_context_*. Not bounded by loop unrollings; bounded by: x86-64 SysV, these 4 templates as clang emits them for the real macros.',
                 assumptions=['the callback obeys the SysV ABI (callee-saved registers and memory at/above its entry rsp preserved) and does not write saved context words',
@@ -269,4 +280,32 @@ def C03(tier):
                              'memory-preservation facts are instantiated at the finitely many addresses the run reads (quantifier-free)'],
                 functions=['myth_swap_context_i', 'myth_swap_context_withcall_i', 'myth_set_context_i', 'myth_set_context_withcall_i', 'myth_make_context_empty', 'myth_make_context_voidcall'])
 
-SPECS = {'C04': C04, 'C20': C20, 'C03': C03, 'C02': C02, 'C16': C16, 'C12': C12, 'C17': C17, 'C15': C15, 'C11': C11, 'C10': C10, 'C05': C05, 'C06': C06, 'C07': C07, 'C08': C08, 'C09': C09, 'C14': C14}
+
+RICH_ASSUME = MODEL_ASSUMPTIONS[:2] + [
+    'rich worker model (model/verif_model_impl.h, VERIF_RICH): workers are handed over at child-first creation and at direct switches; a queued thread is either popped by the queue owner (nondeterministically) or stolen, in which case it resumes on the lowest-numbered idle worker set up as myth_sched_loop does',
+    'context-switch macros, myth_make_context_* and the run queue are models (real asm: C03, real deque: C02); spinlocks are blocking atomic locks',
+    'records and stacks come from pre-populated per-worker free lists (typed objects); fresh mappings (mmap) cut the path (allocator arithmetic is C12 stack_alloc); each record hosts at most one thread per run',
+    'call sites of free_myth_thread_struct_stack/_desc are redirected (IR level) to harness wrappers that check the ownership ledger and then call the real function']
+def cj(name, create, finish, reap, nchild, rounds, timeout=2400, mem=12, preempt='sync'):
+    threads = ['t0', 't1'] + (['t2'] if nchild > 1 else [])
+    return bjob(name, 'harness/C01_create_join.c', threads, rounds, ['-DCREATE=%d' % create, '-DFINISH=%d' % finish, '-DREAP=%d' % reap, '-DNCHILD=%d' % nchild],
+                preempt=preempt, timeout=timeout, mem_gb=mem, extra_cfg=dict(wrap=['free_myth_thread_struct_stack', 'free_myth_thread_struct_desc'], trap=['myth_init_ex_body', 'getenv', 'atoi', 'myth_get_n_available_cpus', 'real_free', 'real_malloc']),
+                bounds=dict(create=['attr NULL', 'attr from attr_init', 'attr + parent-first', 'attr + detachstate'][create], finish=['return', 'exit routine from nested frame'][finish],
+                            reap=['join', 'tryjoin x2 then join', 'detach', 'none (attribute)'][reap], children=nchild))
+def C01(tier):
+    jobs = [cj('cj.null.ret.join.r4', 0, 0, 0, 1, 4), cj('cj.attr.exit.join.r4', 1, 1, 0, 1, 4), cj('cj.parentfirst.ret.join.r4', 2, 0, 0, 1, 4)]
+    if tier == 'thorough':
+        jobs += [cj('cj.null.ret.join.r6', 0, 0, 0, 1, 6, timeout=7200, mem=20), cj('cj.null.exit.join.2children.r4', 0, 1, 0, 2, 4, timeout=10000, mem=24),
+                 cj('cj.parentfirst.exit.join.r5', 2, 1, 0, 1, 5, timeout=7200, mem=20), cj('cj.null.ret.join.r4.all', 0, 0, 0, 1, 4, timeout=10000, mem=24, preempt='all')]
+    return dict(jobs=jobs, assumptions=RICH_ASSUME,
+                functions=['myth_create_ex_body', 'myth_create_1', 'myth_entry_point', 'myth_entry_point_cleanup', 'myth_entry_point_1', 'myth_entry_point_2', 'myth_exit_body', 'myth_join_body', 'myth_join_1', 'myth_join_2', 'myth_join_3',
+                           'myth_thread_attr_init_body', 'init_myth_thread_struct', 'get_new_myth_thread_struct_desc', 'get_new_myth_thread_struct_stack', 'free_myth_thread_struct_desc', 'free_myth_thread_struct_stack', 'myth_tls_tree_init', 'myth_tls_tree_fini'])
+def C13(tier):
+    jobs = [cj('reap.tryjoin.r4', 0, 0, 1, 1, 4), cj('reap.detach.r4', 0, 0, 2, 1, 4), cj('reap.attr_detached.r4', 3, 0, 3, 1, 4)]
+    if tier == 'thorough':
+        jobs += [cj('reap.detach.exit.r6', 0, 1, 2, 1, 6, timeout=7200, mem=20), cj('reap.tryjoin.parentfirst.r5', 2, 0, 1, 1, 5, timeout=7200, mem=20),
+                 cj('reap.detach.r4.all', 0, 0, 2, 1, 4, timeout=10000, mem=24, preempt='all')]
+    return dict(jobs=jobs, assumptions=RICH_ASSUME,
+                functions=['myth_tryjoin_body', 'myth_detach_body', 'myth_join_body', 'myth_create_ex_body', 'myth_entry_point_cleanup', 'myth_entry_point_1', 'myth_entry_point_2', 'free_myth_thread_struct_desc', 'free_myth_thread_struct_stack'])
+
+SPECS = {'C04': C04, 'C20': C20, 'C01': C01, 'C13': C13, 'C03': C03, 'C02': C02, 'C16': C16, 'C12': C12, 'C17': C17, 'C15': C15, 'C11': C11, 'C10': C10, 'C05': C05, 'C06': C06, 'C07': C07, 'C08': C08, 'C09': C09, 'C14': C14}
